@@ -94,6 +94,8 @@ func checkC19(c *Ctx) {
 		return
 	}
 	c19queryPure(c, info, p, netT)
+	premiseNearest(c, "C19.R6", "a route starts at the network node nearest the start point and ends at the one nearest the end point, both found through the node index")
+	c.Floor("C19.R6", 10)
 	c.Floor("C19.R5", 1)
 	c.Floor("C19.R1", 1)
 	c.Floor("C19.R2", 2)
